@@ -20,7 +20,7 @@ func ZeroExtend32BitOutputs(i *ir.Instruction) error {
 		}
 		r, ok := op.(reg.GP)
 		if !ok {
-			panic("r32 operand should satisfy reg.GP")
+			return errors.New("r32 operand should satisfy reg.GP")
 		}
 		i.Outputs[j] = r.As64()
 	}
